@@ -7,7 +7,7 @@ for n in "$@"; do
   d=seeded/$n; prop=$(jq -r .property $d/meta.json)
   [ -f props/$prop.json ] || { echo "$n: property $prop not claimed yet"; continue; }
   git -C /repo apply $PWD/$d/patch.diff || { echo "$n: patch does not apply"; continue; }
-  out=$(./check $prop 2>&1); rc=$?
+  out=$(GOVC_NOREPLAY=${GOVC_NOREPLAY-1} ./check $prop 2>&1); rc=$?
   case " $touched " in *" $prop "*) ;; *) touched="$touched $prop";; esac
   git -C /repo checkout -- . ; git -C /repo clean -qfd
   v=$(echo "$out" | grep -c '^VIOLATION')
